@@ -689,6 +689,17 @@ def sc_cg(V, P, cfg):
     if cfg["prec"] == "jacobi":
         w = V.real("w", positive=True, hi=1, default=0.75)
         prec = DampedJacobi(w=w)
+    elif cfg["prec"] == "free":
+        # abstraction of *any* preconditioner: solve() returns arbitrary values (fresh symbols); the residual invariant
+        # and the convergence claim of CG must not depend on what the preconditioner returns
+        class FreePreconditioner(Preconditioner):
+            calls = 0
+
+            def solve(self, rhs, x0=None, trans='N'):
+                FreePreconditioner.calls += 1
+                nm = "z%d" % FreePreconditioner.calls
+                return V.cplxs(nm, np.shape(rhs)) if xc else V.reals(nm, np.shape(rhs))
+        prec = FreePreconditioner()
     else:
         prec = Preconditioner()
     Ain = _mk_sparse(V, A) if cfg.get("sparse", True) else A
@@ -997,6 +1008,9 @@ def items(tier):
                                 continue       # i % restart == 0 at i = 0 for every restart: same path as restart = 1
                             add("cg", "%s-%s-%s-r%d-m%d-%s" % (t, prec, "x0" if x0 else "nox0", restart, maxit, tag), ac=ac, xc=xc,
                                 trans=t, prec=prec, x0=x0, restart=restart, maxit=maxit, shape="v")
+    for t in TRANS:
+        for tag, ac, xc in DATA[:2]:
+            add("cg", "%s-free-x0-r50-m2-%s" % (t, tag), ac=ac, xc=xc, trans=t, prec="free", x0=True, restart=50, maxit=2, shape="v")
     add("cg", "N-identity-x0-r1-m1-r-c1", ac=False, xc=False, trans="N", prec="identity", x0=True, restart=1, maxit=1, shape="c1")
     add("cg", "H-jacobi-x0-r1-m1-c-c1-dense", ac=True, xc=True, trans="H", prec="jacobi", x0=True, restart=1, maxit=1, shape="c1",
         sparse=False)
@@ -1016,9 +1030,6 @@ MAX_PATHS = dict(auto=400, cg=60, orth=60, ldl=40)
 
 
 def run_item(cfg, tier):
-    # z3's sum-of-monomials normaliser stops expanding when a polynomial grows more than `som_blowup` times (default 10);
-    # the cross-multiplied identities of SOR / CG exceed that although they normalise to 0 within a second
-    z3.set_param("rewriter.som_blowup", 100000)
     return symbolic_run(SCEN[cfg["kind"]], cfg, tier, max_paths=MAX_PATHS.get(cfg["kind"], 20))
 
 
